@@ -13,7 +13,6 @@ import (
 	"verifharness/vh"
 )
 
-func newRand(seed int64) *rand.Rand { return rand.New(rand.NewSource(seed*7919 + 13)) }
 
 type walker struct {
 	t        *testing.T
